@@ -20,11 +20,7 @@ Id(r) == IF r.k = "found" THEN r.v.hash ELSE <<r.k>>
 Ids(r) == IF r.k = "found" THEN [i \in 1..Len(r.v) |-> r.v[i].hash] ELSE <<<<r.k>>>>
 K(r) == r.k
 
-BlockView(n) ==
-  LET sz == IF n \in Stored THEN Size(n) ELSE 0
-      bh == IF n \in Stored THEN BHash(n) ELSE BlockHash(ver)             \* beyond the head: a hash never stored
-      TxHashAt(i) == IF n \in Stored /\ i < sz THEN HashOf(n, i) ELSE TxHash(ver, MaxSize + i)  \* or never stored
-  IN
+BlockViewOf(n, sz, bh, hs) ==
   [n |-> n, size |-> sz, ver |-> IF n \in Stored THEN chain[n + 1].ver ELSE -1,
    header |-> K(HeaderByNumber(n)), headerByHash |-> K(HeaderByHash(bh)),
    numberByHash |-> LET r == NumberByHash(bh) IN IF r.k = "found" THEN <<"number", r.v>> ELSE <<r.k>>,
@@ -40,10 +36,10 @@ BlockView(n) ==
                                     IF r.k = "found" THEN <<r.v[1].hash, r.v[2].hash>> ELSE <<r.k>>],
    status |-> [i \in 1..(sz + 1) |-> LET r == StatusByIndex(n, i - 1) IN
                                       IF r.k = "found" THEN <<"status", r.v.rev>> ELSE <<r.k>>],
-   txByHash |-> [i \in 1..(sz + 1) |-> Id(TxByHash(TxHashAt(i - 1)))],
-   locByHash |-> [i \in 1..(sz + 1) |-> LET r == LocationByHash(TxHashAt(i - 1)) IN
+   txByHash |-> [i \in 1..(sz + 1) |-> Id(TxByHash(hs[i]))],
+   locByHash |-> [i \in 1..(sz + 1) |-> LET r == LocationByHash(hs[i]) IN
                                          IF r.k = "found" THEN <<"at", r.v[1], r.v[2]>> ELSE <<r.k>>],
-   rcByHash |-> [i \in 1..(sz + 1) |-> LET r == ReceiptByHash(TxHashAt(i - 1)) IN
+   rcByHash |-> [i \in 1..(sz + 1) |-> LET r == ReceiptByHash(hs[i]) IN
                                         IF r.k = "found" THEN <<r.v.rc.hash, r.v.blockHash, r.v.number>> ELSE <<r.k>>],
    su |-> K(SUByNumber(n)), suByHash |-> K(SUByHash(bh)),
    l1 |-> IF n \in Stored
@@ -53,6 +49,16 @@ BlockView(n) ==
                                           v |-> [hash |-> IF L1Lookup(Msg(t)).k = "found" THEN L1Lookup(Msg(t)).v ELSE <<>>]])
                                  ELSE <<"na">>]
           ELSE <<>>]
+
+(* the bound variables of a set constructor are bound to VALUES (operator arguments and LET definitions
+   are re-evaluated at every use): the hashes asked for are computed once. Beyond the head and
+   past the last index: hashes never stored. *)
+BlockView(n) ==
+  CHOOSE r \in {BlockViewOf(n, sz, bh, hs) :
+                  sz \in {IF n \in Stored THEN Size(n) ELSE 0},
+                  bh \in {IF n \in Stored THEN BHash(n) ELSE BlockHash(ver)},
+                  hs \in {[i \in 1..((IF n \in Stored THEN Size(n) ELSE 0) + 1) |->
+                             IF n \in Stored /\ i <= Size(n) THEN HashOf(n, i - 1) ELSE TxHash(ver, MaxSize)]}} : TRUE
 
 (* what a reorg dropped: every by-hash accessor for every orphaned transaction and replaced block *)
 GoneView ==
